@@ -264,12 +264,13 @@ fn check_path(
     }: &Path,
     is_remote: bool,
 ) -> bool {
-    if is_remote {
-        if let "Option" | "String" | "Vec" | "std::ops::Range" = path.as_str() {
-            return false;
-        }
-    }
-    id == &parent.id || {
+    // these are never remote types themselves, but the types they contain can be
+    let is_std_container = is_remote
+        && matches!(
+            path.as_str(),
+            "Option" | "String" | "Vec" | "std::ops::Range"
+        );
+    (!is_std_container && id == &parent.id) || {
         if let Some(args) = args {
             check_args(parent, args, is_remote)
         } else {
